@@ -41,5 +41,11 @@ def main(args):
 
     # Remove the version index first. If this operation is interrupted partway,
     # no recorded version may be left behind without its output directory.
-    (ctx.output_path / VERSION_INDEX_NAME).unlink(missing_ok=True)
+    try:
+        (ctx.output_path / VERSION_INDEX_NAME).unlink(missing_ok=True)
+    except OSError as ex:
+        # Nothing has been removed yet; keep it that way (the recorded
+        # versions still have their output directories).
+        print("ERROR: Could not remove the version index:", ex, file=sys.stderr)
+        sys.exit(1)
     shutil.rmtree(ctx.output_path, ignore_errors=True)
